@@ -74,7 +74,9 @@ impl Roundable for i128 {
     }
 
     fn compare_remainder(dividend: Self, divisor: Self) -> Option<Ordering> {
-        Some((dividend.abs() % divisor).cmp(&(divisor / 2)))
+        // Compare twice the remainder with the divisor: halving the divisor
+        // would truncate for odd divisors and report a tie that is not one.
+        Some(((dividend.abs() % divisor) * 2).cmp(&divisor))
     }
 
     fn is_even_cardinal(dividend: Self, divisor: Self) -> bool {
